@@ -371,6 +371,97 @@ def run_V(prop, st, tier, seed, work):
     return r
 
 
+REPO_CRATES = ("kmer::", "ktio::", "composition::", "counter::", "coverage::", "misc::", "kmertools::", "pybindings::")
+VG_KINDS = ("Invalid read", "Invalid write", "Invalid free", "Mismatched free", "Source and destination overlap", "Jump to the invalid address")
+
+
+def parse_memcheck_log(text):
+    """memcheck log of the monitor process -> (reports attributed to repository code, reports elsewhere, uninitialised-value
+    reports in repository code).  A report is attributed to the repository when a frame of its access stack — or of the
+    allocation / release stack of the block it names — lies in one of the repository's crates; reports wholly inside the
+    monitor, std or dependencies are counted, never judged."""
+    blocks, cur = [], []
+    for line in text.splitlines():
+        body = re.sub(r"^==\d+== ?", "", line)
+        if not body.strip():
+            if cur:
+                blocks.append(cur)
+            cur = []
+        else:
+            cur.append(body)
+    if cur:
+        blocks.append(cur)
+    mine, other, uninit = [], 0, 0
+    i = 0
+    while i < len(blocks):
+        b = blocks[i]
+        head = b[0]
+        is_addr = any(head.startswith(k) for k in VG_KINDS)
+        is_uninit = "uninitialised" in head
+        if not (is_addr or is_uninit):
+            i += 1
+            continue
+        lines = list(b[1:])
+        if i + 1 < len(blocks) and blocks[i + 1][0].lstrip().startswith("Address 0x"):
+            lines += blocks[i + 1]
+            i += 1
+        i += 1
+        frames = [l.strip() for l in lines if l.lstrip().startswith(("at 0x", "by 0x"))]
+        repo_frames = [f for f in frames if (REPO + "/") in f or any((": " + c) in f or (" " + c) in f or ("<" + c) in f for c in REPO_CRATES)]
+        if not repo_frames:
+            other += 1
+            continue
+        if is_uninit:
+            uninit += 1
+            continue
+        fn = re.sub(r"^(at|by) 0x[0-9A-Fa-f]+: ", "", repo_frames[0])
+        fn = re.sub(r" \(.*\)$", "", fn)
+        fn = re.sub(r"::h[0-9a-f]{16}$", "", fn)
+        addr = next((l.strip() for l in lines if l.lstrip().startswith("Address 0x")), "")
+        mine.append({"kind": " ".join(head.split()[:2]), "head": head, "frame": fn, "address": addr, "stack": frames[:10]})
+    return mine, other, uninit
+
+
+def run_VM(prop, st, tier, seed, work):
+    """the monitor stage itself under valgrind memcheck (release build, one worker thread, tiny scale): heap overruns into
+    allocator slack, reads of released memory and the like inside the code under test, whatever the outputs are"""
+    if not shutil.which("valgrind"):
+        raise ToolMissing("valgrind")
+    logp = os.path.join(work, "memcheck-%s.log" % st["stage"])
+    pre = ["valgrind", "--tool=memcheck", "--error-exitcode=0", "--leak-check=no", "--num-callers=30", "--error-limit=no", "--fullpath-after=", "--log-file=" + logp]
+    r = run_ktmon_stage(prop, st, tier, seed, work, "R", extra_args=["--threads", "2"], pre=pre)
+    r.pop("_stderr", None)
+    r["flavour"] = "VM"
+    try:
+        text = open(logp, errors="replace").read()
+    except OSError:
+        text = None
+    if text is None:
+        r["inconclusive"] = r.get("inconclusive", 0) + 1
+        r.setdefault("inconclusive_notes", []).append("no memcheck log")
+        return r
+    mine, other, uninit = parse_memcheck_log(text)
+    r.setdefault("extra", {})
+    r["extra"]["memcheck_reports_in_repository_code"] = len(mine)
+    r["extra"]["memcheck_reports_elsewhere_not_judged"] = other
+    r["extra"]["memcheck_uninitialised_in_repository_code_not_judged"] = uninit
+    if mine:
+        os.makedirs(REPLAY_DIR, exist_ok=True)
+        vs = r.setdefault("violations", [])
+        by = r.setdefault("violations_by_sig", {})
+        for n, rep in enumerate(mine):
+            sig = "memcheck:%s:%s" % (rep["kind"], rep["frame"][:90])
+            by[sig] = by.get(sig, 0) + 1
+            if by[sig] > 2:
+                continue
+            dst = os.path.join(REPLAY_DIR, "%s-VM-seed%d-%d-%d.json" % (st["stage"].replace(".", "_"), seed, os.getpid(), n))
+            json.dump({"stage": st["stage"], "flavour": "VM", "seed": seed, "sig": sig, "report": rep,
+                       "how": "valgrind memcheck on `ktmon %s --seed %d --tier %s --threads 2` (release build)" % (st["stage"], seed, tier)}, open(dst, "w"), indent=1)
+            vs.append({"sig": sig, "msg": "valgrind memcheck: %s in %s %s" % (rep["head"], rep["frame"], rep["address"]), "replay": dst})
+        r["violations_total"] = r.get("violations_total", 0) + len(mine)
+    return r
+
+
 def run_M(prop, st, tier, seed, work):
     """Miri shard: cargo +nightly miri test -p ktmiri <filter>."""
     env = base_env()
@@ -466,7 +557,7 @@ def run_PY(prop, st, tier, seed, work):
     return res
 
 
-RUNNERS = {"R": run_R, "D": run_D, "A": run_A, "T": run_T, "V": run_V, "M": run_M, "PY": run_PY}
+RUNNERS = {"R": run_R, "D": run_D, "A": run_A, "T": run_T, "V": run_V, "VM": run_VM, "M": run_M, "PY": run_PY}
 
 
 def replay(path):
